@@ -33,6 +33,8 @@ var (
 	ErrTxDuplicated = errors.New("transaction duplicated in different blocks")
 	// ErrRootBlockAlreadyExist is returned when two genesis block is checked in the process of confirming block
 	ErrRootBlockAlreadyExist = errors.New("this ledger already has genesis block")
+	// ErrBlockAlreadyExist is returned when a block to confirm is already stored in the ledger
+	ErrBlockAlreadyExist = errors.New("this ledger already has this block")
 	// ErrTxNotConfirmed return tx not confirmed error
 	ErrTxNotConfirmed = errors.New("transaction not confirmed")
 	// NumCPU returns the number of CPU cores for the current system
@@ -599,6 +601,14 @@ func (l *Ledger) ConfirmBlock(block *pb.InternalBlock, isRoot bool) ConfirmStatu
 		block.InTrunk = true
 		block.Height = 0 // 创世纪块是第0块
 	} else { //非创世块,需要判断是在主干还是分支
+		// a block that is already stored must not be confirmed again: it would be saved as
+		// a fresh branch block over its own record (out of the trunk, next link lost)
+		if exist, _ := l.blocksTable.Has(block.Blockid); exist {
+			confirmStatus.Succ = false
+			confirmStatus.Error = ErrBlockAlreadyExist
+			l.xlog.Warn("block already exists in ledger", "blockid", utils.F(block.Blockid))
+			return confirmStatus
+		}
 		preHash := block.PreHash
 		preBlock, findErr := l.fetchBlock(preHash)
 		if findErr != nil {
